@@ -1142,11 +1142,11 @@ fn main() {
 		move || gated_strategy(prop_oneof![2 => 0u32..8, 3 => 8u32..48, 3 => 48u32..top]),
 		oracle,
 	);
-	let cases = check.cases(0, 160);
+	let cases = check.cases(0, 640);
 	check.phase("random-priority-large", cases, || gated_strategy(prop_oneof![3 => 300u32..3000, 1 => 3000u32..=10_000]), oracle);
 
 	// large streams, a generated subset of the tasks is slow
-	let cases = check.cases(16, 96);
+	let cases = check.cases(24, 400);
 	let big = check.cases(2000, 10_000);
 	check.phase("delayed-large", cases, move || delayed_strategy(prop_oneof![1 => 200u32..big, 2 => Just(big)]), oracle);
 
